@@ -435,3 +435,450 @@ func init() {
 		}
 	}
 }
+
+// narrowSizeRule: a length, capacity, slice bound or index is not the result of an addition, multiplication or
+// left shift carried out in an 8- or 16-bit integer type on operands that are not both constants: the type
+// admits operands for which the result wraps (255 shares x 32 octets in uint8 is 224), and the buffer then
+// has another size than every reader of it assumes. Widening before the arithmetic is what the tree does
+// everywhere (the expected number of sites is zero; the engine's own positive example is checked on every
+// run through the self-test seeds).
+func (c *Ctx) narrowSizeRule(p *Program, rule string, prefixes []string) {
+	narrow := func(t types.Type) bool {
+		b, ok := t.Underlying().(*types.Basic)
+		if !ok {
+			return false
+		}
+		switch b.Kind() {
+		case types.Uint8, types.Int8, types.Uint16, types.Int16:
+			return true
+		}
+		return false
+	}
+	var origin func(v ssa.Value, depth int) *ssa.BinOp
+	origin = func(v ssa.Value, depth int) *ssa.BinOp {
+		if depth > 8 {
+			return nil
+		}
+		switch x := v.(type) {
+		case *ssa.Convert:
+			return origin(x.X, depth+1)
+		case *ssa.ChangeType:
+			return origin(x.X, depth+1)
+		case *ssa.BinOp:
+			if narrow(x.Type()) && (x.Op == token.MUL || x.Op == token.ADD || x.Op == token.SHL) {
+				_, kx := x.X.(*ssa.Const)
+				_, ky := x.Y.(*ssa.Const)
+				if !(kx && ky) {
+					return x
+				}
+			}
+			// a wider sum or product of a narrow one
+			if !narrow(x.Type()) && (x.Op == token.MUL || x.Op == token.ADD || x.Op == token.SUB) {
+				if o := origin(x.X, depth+1); o != nil {
+					return o
+				}
+				return origin(x.Y, depth+1)
+			}
+		}
+		return nil
+	}
+	examined, nfun := 0, 0
+	var fns []*ssa.Function
+	for f := range p.AllFuncs {
+		if f.Blocks == nil || !sourceFunc(f) || !isCirclFunc(f) {
+			continue
+		}
+		rel := strings.TrimPrefix(funcPkgPath(f), circlPath+"/")
+		okp := len(prefixes) == 0
+		for _, pre := range prefixes {
+			if strings.HasPrefix(rel, pre) {
+				okp = true
+			}
+		}
+		if okp {
+			fns = append(fns, f)
+		}
+	}
+	sort.Slice(fns, func(i, j int) bool { return fns[i].String() < fns[j].String() })
+	nbad := 0
+	for _, f := range fns {
+		nfun++
+		for _, b := range f.Blocks {
+			for _, in := range b.Instrs {
+				var sizes []ssa.Value
+				kind := ""
+				switch x := in.(type) {
+				case *ssa.MakeSlice:
+					sizes, kind = []ssa.Value{x.Len, x.Cap}, "length of a new slice"
+				case *ssa.Slice:
+					sizes, kind = []ssa.Value{x.Low, x.High, x.Max}, "slice bound"
+				case *ssa.IndexAddr:
+					sizes, kind = []ssa.Value{x.Index}, "index"
+				default:
+					continue
+				}
+				for _, s := range sizes {
+					if s == nil {
+						continue
+					}
+					examined++
+					if o := origin(s, 0); o != nil {
+						nbad++
+						c.bad(rule, fmt.Sprintf("%s: sizes are computed in at least 32 bits", fname(f)), fmt.Sprintf("the %s at %s is %s computed in %s at %s: it wraps for operands the type admits", kind, p.pos(in.Pos()), o.Op.String(), o.Type().String(), p.pos(o.Pos())), p.fnPos(f))
+					}
+				}
+			}
+		}
+	}
+	c.count("narrow_size_operands", examined)
+	if examined < 100 {
+		c.undecided(rule, "lengths, bounds and indices", fmt.Sprintf("only %d examined", examined), "")
+	} else if nbad == 0 {
+		c.ok(rule, "no length, bound or index is computed by 8- or 16-bit arithmetic", fmt.Sprintf("%d operands in %d functions", examined, nfun), "")
+	}
+}
+
+func init() {
+	for prop, pre := range map[string][]string{"C19": {"vdaf/"}, "C10": nil} {
+		prop, pre := prop, pre
+		prev := registry[prop]
+		registry[prop] = func(c *Ctx) {
+			prev(c)
+			if p := c.Prog("amd64"); p != nil {
+				c.Clauses = append(c.Clauses, prop+".narrowsize: no length, capacity, slice bound or index is the result of 8- or 16-bit addition, multiplication or shift of non-constant operands")
+				c.narrowSizeRule(p, prop+".narrowsize", pre)
+			}
+		}
+	}
+}
+
+// deadResultRule: a call whose only effect is to write a local object (the callee writes nothing but memory
+// reached through that argument, and returns nothing that is used) is followed by some use of that object.
+// `g := *f; fpMod(&g)` with the encoding then taken from f is the shape: the canonical form is computed and
+// dropped, and the function goes on with the unreduced operand.
+func (c *Ctx) deadResultRule(p *Program, rule string, prefixes []string) {
+	var fns []*ssa.Function
+	for f := range p.AllFuncs {
+		if f.Blocks == nil || !sourceFunc(f) || !isCirclFunc(f) {
+			continue
+		}
+		rel := strings.TrimPrefix(funcPkgPath(f), circlPath+"/")
+		for _, pre := range prefixes {
+			if strings.HasPrefix(rel, pre) {
+				fns = append(fns, f)
+				break
+			}
+		}
+	}
+	sort.Slice(fns, func(i, j int) bool { return fns[i].String() < fns[j].String() })
+	examined, nbad := 0, 0
+	for _, f := range fns {
+		for _, b := range f.Blocks {
+			for _, in := range b.Instrs {
+				al, ok := in.(*ssa.Alloc)
+				if !ok || al.Referrers() == nil {
+					continue
+				}
+				switch al.Type().(*types.Pointer).Elem().Underlying().(type) {
+				case *types.Struct, *types.Array:
+				default:
+					continue
+				}
+				var calls []*ssa.Call
+				other := false
+				for _, r := range *al.Referrers() {
+					switch x := r.(type) {
+					case *ssa.Store:
+						if x.Addr != ssa.Value(al) {
+							other = true
+						}
+					case *ssa.DebugRef:
+					case *ssa.Call:
+						calls = append(calls, x)
+					default:
+						other = true
+					}
+				}
+				if other || len(calls) == 0 {
+					continue
+				}
+				examined++
+				dead := true
+				for _, call := range calls {
+					cal := call.Call.StaticCallee()
+					if cal == nil || !isCirclFunc(cal) || call.Call.IsInvoke() {
+						dead = false
+						break
+					}
+					if call.Referrers() != nil && len(*call.Referrers()) > 0 {
+						dead = false // a result is used: the call may be a validation
+						break
+					}
+					idx := -1
+					for i, a := range call.Call.Args {
+						if a == ssa.Value(al) {
+							idx = i
+						}
+					}
+					ws := p.Mod().of(cal)
+					if cal.Blocks == nil {
+						// an assembly stub: the write model says what it writes
+						if wr, known := asmStubWrites(short(cal.String())); known {
+							onlyThis := len(wr) > 0
+							for _, w := range wr {
+								if w != idx {
+									onlyThis = false
+								}
+							}
+							if !onlyThis {
+								dead = false
+							}
+							continue
+						}
+						dead = false
+						break
+					}
+					writesThis := false
+					for _, w := range ws {
+						if w.Root == fmt.Sprintf("param#%d", idx) {
+							writesThis = true
+						} else {
+							dead = false
+						}
+					}
+					if !writesThis {
+						dead = false
+					}
+					if !dead {
+						break
+					}
+				}
+				if dead {
+					nbad++
+					c.bad(rule, fmt.Sprintf("%s: an object written by a call is used afterwards", fname(f)), fmt.Sprintf("the local at %s is only written (by %s at %s) and never read: the value computed there is dropped", p.pos(al.Pos()), fname(calls[0].Call.StaticCallee()), p.pos(calls[0].Pos())), p.fnPos(f))
+				}
+			}
+		}
+	}
+	c.count("dead_result_locals", examined)
+	if nbad == 0 {
+		c.ok(rule, "no local object is written by a call and then dropped", fmt.Sprintf("%d locals whose only uses are calls", examined), "")
+	}
+}
+
+func init() {
+	for prop, pre := range map[string][]string{"C09": {"ecc/", "group", "math/", "sign/ed", "dh/"}, "C12": {"ecc/", "math/", "group", "sign/ed25519", "sign/internal", "pke/kyber/internal", "vdaf/prio3/arith", "dh/"}} {
+		prop, pre := prop, pre
+		prev := registry[prop]
+		registry[prop] = func(c *Ctx) {
+			prev(c)
+			if p := c.Prog("amd64"); p != nil {
+				c.Clauses = append(c.Clauses, prop+".deadresult: no local object is written by a call (whose only effect is that write) and never read afterwards")
+				c.deadResultRule(p, prop+".deadresult", pre)
+			}
+		}
+	}
+}
+
+// memoRule: process-wide memo tables and buffer pools are state that outlives a call. The tree has none; where
+// one appears the rule demands what makes it invisible: (i) a sync.Map rooted at a package-level variable is
+// keyed by an argument of the function itself (through conversions only) - a key derived by some other
+// function may identify two different arguments (white space stripped from a policy makes "not a: x" and
+// "nota: x" one entry); (ii) memory taken from a sync.Pool is cleared (builtin clear, on the value or a slice
+// of it) in the function that takes it, before anything else can read what an earlier user left there.
+func (c *Ctx) memoRule(p *Program, rule string) {
+	var fns []*ssa.Function
+	for f := range p.AllFuncs {
+		if f.Blocks != nil && sourceFunc(f) && isCirclFunc(f) {
+			fns = append(fns, f)
+		}
+	}
+	sort.Slice(fns, func(i, j int) bool { return fns[i].String() < fns[j].String() })
+	n, nbad := 0, 0
+	argItself := func(f *ssa.Function, v ssa.Value) bool {
+		for i := 0; i < 8; i++ {
+			switch x := v.(type) {
+			case *ssa.MakeInterface:
+				v = x.X
+			case *ssa.Convert:
+				v = x.X
+			case *ssa.ChangeType:
+				v = x.X
+			case *ssa.Parameter:
+				return true
+			default:
+				return false
+			}
+		}
+		return false
+	}
+	for _, f := range fns {
+		for _, b := range f.Blocks {
+			for _, in := range b.Instrs {
+				call, ok := in.(*ssa.Call)
+				if !ok {
+					continue
+				}
+				name := p.staticCalleeName(&call.Call)
+				switch name {
+				case "(*sync.Map).Load", "(*sync.Map).Store", "(*sync.Map).LoadOrStore", "(*sync.Map).LoadAndDelete", "(*sync.Map).Swap":
+					base, _ := memRoot(call.Call.Args[0])
+					if _, isGlobal := base.(*ssa.Global); !isGlobal {
+						continue
+					}
+					n++
+					if !argItself(f, call.Call.Args[1]) {
+						nbad++
+						c.bad(rule, fname(f)+": a process-wide memo table is keyed by an argument itself", fmt.Sprintf("the key of %s at %s is %s, a derived value: two different arguments may share an entry", name, p.pos(call.Pos()), descVal(call.Call.Args[1])), p.fnPos(f))
+					}
+				case "(*sync.Pool).Get":
+					n++
+					cleared := false
+					for _, b2 := range f.Blocks {
+						for _, in2 := range b2.Instrs {
+							if c2, ok := in2.(*ssa.Call); ok {
+								if bi, ok := c2.Call.Value.(*ssa.Builtin); ok && bi.Name() == "clear" {
+									cleared = true
+								}
+							}
+						}
+					}
+					if !cleared {
+						nbad++
+						c.bad(rule, fname(f)+": memory taken from a pool is cleared before use", fmt.Sprintf("%s at %s: no clear of the pooled memory in this function; what an earlier user left in it is read as if it were zero", name, p.pos(call.Pos())), p.fnPos(f))
+					}
+				}
+			}
+		}
+	}
+	c.count("memo_sites", n)
+	if nbad == 0 {
+		c.ok(rule, "process-wide memo tables are keyed by the argument itself and pooled memory is cleared", fmt.Sprintf("%d memo / pool sites in %d functions (the tree has none)", n, len(fns)), "")
+	}
+}
+
+func init() {
+	prev := registry["C11"]
+	registry["C11"] = func(c *Ctx) {
+		prev(c)
+		if p := c.Prog("amd64"); p != nil {
+			c.Clauses = append(c.Clauses, "C11.memo: a package-level sync.Map is keyed by an argument itself; memory from a sync.Pool is cleared in the function that takes it")
+			c.memoRule(p, "C11.memo")
+		}
+	}
+}
+
+// carriedBorrowRule: in a loop over the words of a multi-word operand, the borrow (carry) that one
+// math/bits.Sub64 / Add64 produces and that is carried into the next iteration (a phi of the loop header) is
+// consumed there as the borrow-in (carry-in) of an arithmetic call. A loop that keeps overwriting the borrow
+// and feeds every word a constant borrow-in decides "x < y" by the last word alone.
+func (c *Ctx) carriedBorrowRule(p *Program, rule string) {
+	var fns []*ssa.Function
+	for f := range p.AllFuncs {
+		if f.Blocks != nil && sourceFunc(f) && isCirclFunc(f) && !strings.Contains(funcPkgPath(f), "/internal/test") {
+			fns = append(fns, f)
+		}
+	}
+	sort.Slice(fns, func(i, j int) bool { return fns[i].String() < fns[j].String() })
+	isArith := func(v ssa.Value) *ssa.Call {
+		call, ok := v.(*ssa.Call)
+		if !ok {
+			return nil
+		}
+		switch p.staticCalleeName(&call.Call) {
+		case "math/bits.Add64", "math/bits.Sub64", "math/bits.Add32", "math/bits.Sub32", "math/bits.Add", "math/bits.Sub":
+			return call
+		}
+		return nil
+	}
+	n, nbad := 0, 0
+	for _, f := range fns {
+		for _, h := range f.Blocks {
+			body := loopBody(h)
+			if body == nil {
+				continue
+			}
+			for _, in := range h.Instrs {
+				phi, ok := in.(*ssa.Phi)
+				if !ok {
+					break
+				}
+				// one incoming edge from inside the loop is the borrow result of an arithmetic call in the loop
+				var src *ssa.Call
+				for _, e := range phi.Edges {
+					if ex, ok := e.(*ssa.Extract); ok && ex.Index == 1 {
+						if call := isArith(ex.Tuple); call != nil && body[call.Block()] {
+							src = call
+						}
+					}
+				}
+				if src == nil || !phiIsRead(phi) {
+					// a variable declared outside the loop and re-assigned before every use: the phi is dead
+					continue
+				}
+				n++
+				consumed := false
+				for _, r := range *phi.Referrers() {
+					if call, ok := r.(*ssa.Call); ok && isArith(call) != nil && len(call.Call.Args) == 3 && call.Call.Args[2] == ssa.Value(phi) {
+						// in the loop, or by the unrolled last iteration after it
+						consumed = true
+					}
+					// passed on to a helper or combined with other flags: not this shape
+					switch r.(type) {
+					case *ssa.BinOp, *ssa.Store, *ssa.Convert, *ssa.Phi:
+						if rr, ok := r.(ssa.Instruction); ok && body[rr.Block()] {
+							consumed = true
+						}
+					}
+				}
+				if !consumed {
+					nbad++
+					c.bad(rule, fname(f)+": a borrow carried round a word loop is fed into the next word", fmt.Sprintf("the borrow of %s at %s is carried to the next iteration (and out of the loop) but no arithmetic call in the loop takes it as borrow-in: only the last word decides", p.staticCalleeName(&src.Call), p.pos(src.Pos())), p.fnPos(f))
+				}
+			}
+		}
+	}
+	c.count("carried_borrows", n)
+	if nbad == 0 {
+		c.ok(rule, "every borrow carried round a word loop is consumed as a borrow-in there", fmt.Sprintf("%d loop-carried borrows", n), "")
+	}
+}
+
+func init() {
+	for _, prop := range []string{"C05", "C12", "C09"} {
+		prop := prop
+		prev := registry[prop]
+		registry[prop] = func(c *Ctx) {
+			prev(c)
+			if p := c.Prog("amd64"); p != nil {
+				c.Clauses = append(c.Clauses, prop+".carriedborrow: a borrow or carry of math/bits arithmetic that is carried round a loop over words is consumed as the borrow-in of the next word")
+				c.carriedBorrowRule(p, prop+".carriedborrow")
+			}
+		}
+	}
+}
+
+// phiIsRead: some instruction other than a phi or a debug reference uses the phi (through further phis).
+func phiIsRead(phi *ssa.Phi) bool {
+	seen := map[*ssa.Phi]bool{}
+	var walk func(x *ssa.Phi) bool
+	walk = func(x *ssa.Phi) bool {
+		if seen[x] || x.Referrers() == nil {
+			return false
+		}
+		seen[x] = true
+		for _, r := range *x.Referrers() {
+			switch y := r.(type) {
+			case *ssa.DebugRef:
+			case *ssa.Phi:
+				if walk(y) {
+					return true
+				}
+			default:
+				return true
+			}
+		}
+		return false
+	}
+	return walk(phi)
+}
